@@ -169,7 +169,7 @@ func recExtra(p *Prog) map[string]recJust { return map[string]recJust{} }
 
 func controlsRec(cp *Prog, r *Report) {
 	expectControl(r, "R-REC", func(cr *Report) { ruleRecIn(cp, cr, 0, "rec") },
-		"(*rec.ctx).recurseBad", "(*rec.ctx).recurseBad/fanout", "rec.depthBad", "rec.fanoutBad/fanout", "rec.markerBad", "rec.plainBad", "(rec.cm).lookupBad", "(rec.cm).offsetBad")
+		"(*rec.ctx).recurseBad", "(*rec.ctx).recurseBad/fanout", "rec.depthBad", "rec.fanoutBad/fanout", "rec.markerBad", "rec.plainBad", "(rec.cm).lookupBad", "(rec.cm).offsetBad", "(*rec.wrapBad).next", "rec.walkBad/fanout")
 }
 
 // ---- R-SYNC ---------------------------------------------------------------------------------------------
